@@ -116,12 +116,13 @@ type Model struct {
 	// for key K has RETURNED and no UNBIND for K was ever started, every BOUND call
 	// for K placed while all channels are READY (no balancer callback overlapping)
 	// goes to one and the same channel.
-	cBound   map[string]bool
-	cDropped map[string]bool
-	cHome    map[string]int
-	coreSeq  int
-	aggKnown bool
-	pd       *donePending
+	cBound     map[string]bool
+	cDropped   map[string]bool
+	cHome      map[string]int
+	coreSeq    int
+	readingOut [2]bool // C07: readings of "last response" contradicted so far in this run
+	aggKnown   bool
+	pd         *donePending
 	// Coverage probes.
 	Probes map[string]int
 	hash   uint64
@@ -1075,7 +1076,7 @@ func (m *Model) PredictRR(cm *callM) (int, bool) {
 
 type donePending struct {
 	must    [2]bool
-	ambig   bool
+	ambig   bool // the statement does not decide this completion under any reading (start == last response)
 	ch      *chanM
 	call    int
 	detect  bool
@@ -1128,8 +1129,7 @@ func (m *Model) doneInvoke(ev Event) {
 		m.probe("client_deadline_completion")
 	}
 	if pd.must[0] != pd.must[1] {
-		pd.ambig = true
-		m.probe("refresh_rule_ambiguous_zone")
+		m.probe("refresh_rule_readings_differ")
 	}
 	m.pd = pd
 }
@@ -1170,14 +1170,44 @@ func (m *Model) doneReturn(ev Event) {
 			m.v("C07", "refresh-with-detection-disabled", "", fmt.Sprintf("completion of call %d created a connection although unresponsive detection is disabled", c.ID), ev.Op)
 		}
 	} else if !pd.ambig {
+		// The statement's "last response" has two readings (A: the takeover by a
+		// replacement restarts the window and the count; B: only call completions
+		// do). The code may implement either, but the same one throughout: a
+		// reading contradicted once in this run stays excluded, and the property
+		// is violated when a completion contradicts every reading still standing.
 		facts := fmt.Sprintf("k=%d", min(ch.k[0], 3))
-		if pd.must[0] && created+failed != 1 {
-			m.v("C07", "refresh-not-triggered", facts, fmt.Sprintf("completion of call %d on channel %d (client deadline, de=%d>=%d, since last response %v > window %v, no refresh pending) must start exactly one refresh; NewSubConn calls: %d",
-				c.ID, ch.idx, ch.de[0], m.cfg.ucalls, ev.At-ch.lastResp[0], m.cfg.ums<<uint(ch.k[0]), created+failed), ev.Op)
+		did := created + failed
+		if ch.k[0] >= 2 && c.Outcome == OutClientDE {
+			m.probe("refresh_rule_judged_backoff_ge2")
 		}
-		if !pd.must[0] && created+failed > 0 {
-			m.v("C07", "refresh-not-by-rule", facts, fmt.Sprintf("completion of call %d (%s) on channel %d started a refresh although the rule does not hold (de=%d/%d, since last response %v, window %v, refreshing=%v, call started %v, last response %v)",
-				c.ID, outcomeNames[c.Outcome], ch.idx, ch.de[0], m.cfg.ucalls, ev.At-ch.lastResp[0], m.cfg.ums<<uint(ch.k[0]), ch.refreshing, cm.start, ch.lastResp[0]), ev.Op)
+		standing, rule, msg := 0, "", ""
+		for v := 0; v < 2; v++ {
+			if m.readingOut[v] {
+				continue
+			}
+			switch {
+			case pd.must[v] && did != 1:
+				m.readingOut[v] = true
+				rule = "refresh-not-triggered"
+				msg = fmt.Sprintf("completion of call %d on channel %d (client deadline, de=%d>=%d, since last response %v > window %v, no refresh pending) must start exactly one refresh; NewSubConn calls: %d",
+					c.ID, ch.idx, ch.de[v], m.cfg.ucalls, ev.At-ch.lastResp[v], m.cfg.ums<<uint(ch.k[v]), did)
+			case !pd.must[v] && did > 0:
+				m.readingOut[v] = true
+				rule = "refresh-not-by-rule"
+				msg = fmt.Sprintf("completion of call %d (%s) on channel %d started a refresh although the rule does not hold (de=%d/%d, since last response %v, window %v, refreshing=%v, call started %v, last response %v)",
+					c.ID, outcomeNames[c.Outcome], ch.idx, ch.de[v], m.cfg.ucalls, ev.At-ch.lastResp[v], m.cfg.ums<<uint(ch.k[v]), ch.refreshing, cm.start, ch.lastResp[v])
+			default:
+				standing++
+			}
+		}
+		if m.readingOut[0] != m.readingOut[1] {
+			m.probe("refresh_rule_reading_excluded")
+		}
+		if standing == 0 && rule != "" {
+			if m.readingOut[0] && m.readingOut[1] && pd.must[0] != pd.must[1] {
+				msg += " [the other reading of \"last response\" was contradicted earlier in this run]"
+			}
+			m.v("C07", rule, facts, msg, ev.Op)
 		}
 	}
 	// Key table: successful BIND / UNBIND.
